@@ -4,6 +4,7 @@ reference validator implements, the Go literal of each schema tree, and the case
 import sys, json, random
 tier = sys.argv[1] if len(sys.argv) > 1 else "quick"
 seed = int(sys.argv[2]) if len(sys.argv) > 2 else 0
+mode = sys.argv[3] if len(sys.argv) > 3 else "accept"
 rng = random.Random(31 + seed)
 
 def I(**kw): return dict(type="integer", **kw)
@@ -94,6 +95,6 @@ for i in range(len(SCHEMAS)):
         acc.append([0, i, v])
         rnd.append([0, i, v])
 print(json.dumps({"packages": [{"name": "sm", "spec": spec, "extra_go": {"data.go": "\n".join(data) + "\n"}}],
-                  "cases": {tier: [{"entry": "HAccept", "args": acc}, {"entry": "HRound", "args": rnd}]},
+                  "cases": {tier: ([{"entry": "HAccept", "args": acc}] if mode == "accept" else [{"entry": "HRound", "args": rnd}])},
                   "bounds": {"schemas": "%d named schemas: integer bounds (inclusive/exclusive/negative), multipleOf, integer and string enums, string length, arrays (min/max/uniqueItems, nested item validation), objects (required/optional/nullable members, additionalProperties:false, nesting, 10 and 18 members so the required mask spans 2 and 3 bytes)" % len(SCHEMAS),
                              "instances": "%d schema-directed instance skeletons per schema (valid instances, dropped required member, wrong type, null, undeclared member; 0..3 array items; optional members present/absent/null) with symbolic leaves: every digit of 1-2 digit integers with optional sign, every printable-ASCII string byte (0..2 bytes plus a two-byte rune), every boolean" % nvar}}))
